@@ -16,6 +16,8 @@
        strategy and the effective one is Model.resolve_strategy (real: sloconfig.GetNodeColocationStrategy)
      [tpKind tpCPU tpMem]
        optional, after the nine integers above: the node's thirdPartyAllocations annotation (Publish.tp_of)
+     [normKind normH]
+       optional, after those: the cpu-normalization ratio annotation of the NodeResource (kind 1: "h/100")
    observable: run(base) ++ run(perturbed), each as documented at Model.run_batch, the published amounts
    reduced by the third-party allocations (Publish.apply_tp) *)
 From Coq Require Import List ZArith Bool.
@@ -34,7 +36,8 @@ Definition dec_pod (l : list Z) : pod * list Z :=
   | _ => (mkPod 4 0 (-1) 0 1 0 0 false 0 0 0 0, [])
   end.
 
-Definition decode_bt (l : list Z) : binput * tpalloc :=
+Notation pubin := (tpalloc * option fl)%type.
+Definition decode_bt (l : list Z) : binput * pubin :=
   match l with
   | cp :: mp :: cr :: mr :: ct :: mt :: dg :: age :: cc :: cm :: ac :: am ::
     af :: anc :: anm :: anr :: sc :: sm :: t =>
@@ -50,9 +53,13 @@ Definition decode_bt (l : list Z) : binput * tpalloc :=
                 | _ :: _ :: _ :: _ :: _ :: _ :: _ :: _ :: _ :: tk :: tc :: tm :: _ => tp_of tk tc tm
                 | _ => None
                 end in
+      let nr := match t4 with
+                | _ :: _ :: _ :: _ :: _ :: _ :: _ :: _ :: _ :: _ :: _ :: _ :: nk :: nh :: _ => norm_ratio nk nh
+                | _ => None
+                end in
       (mkB (resolve_strategy (mkStrategy cp mp cr mr ct mt dg) nc)
-           age cc cm ac am (zb af) anc anm anr sc sm zs apps pods dang, tp)
-  | _ => (mkB (mkStrategy 0 0 0 0 (-1) (-1) 1) (-1) 0 0 0 0 false 0 0 0 0 0 [] [] [] [], None)
+           age cc cm ac am (zb af) anc anm anr sc sm zs apps pods dang, (tp, nr))
+  | _ => (mkB (mkStrategy 0 0 0 0 (-1) (-1) 1) (-1) 0 0 0 0 false 0 0 0 0 0 [] [] [] [], (None, None))
   end.
 Definition decode_b (l : list Z) : binput := fst (decode_bt l).
 
@@ -62,7 +69,7 @@ Fixpoint bump (k : nat) (delta : Z) (l : list Z) : list Z :=
   | x :: t, O => (x + delta) :: t
   | x :: t, S k' => x :: bump k' delta t
   end.
-Definition decode2t (inp : list Z) : (binput * tpalloc) * (binput * tpalloc) :=
+Definition decode2t (inp : list Z) : (binput * pubin) * (binput * pubin) :=
   match inp with
   | k :: delta :: t =>
       (decode_bt t, if k <? 0 then decode_bt t else decode_bt (bump (Z.to_nat k) delta t))
@@ -71,31 +78,47 @@ Definition decode2t (inp : list Z) : (binput * tpalloc) * (binput * tpalloc) :=
 Definition decode2 (inp : list Z) : binput * binput :=
   let '(a, b) := decode2t inp in (fst a, fst b).
 
+Definition run_one (b : binput) (p : pubin) : list Z :=
+  pub_core (snd p) (fst p) (run_batch b) ++ pub_extra (snd p) (fst p) (run_batch b).
 Definition run_case (inp : list Z) : list Z :=
-  let '((a, ta), (b, tb)) := decode2t inp in apply_tp ta (run_batch a) ++ apply_tp tb (run_batch b).
+  let '((a, pa), (b, pb)) := decode2t inp in run_one a pa ++ run_one b pb.
 
+(* one run: core = [0; pubCPU; pubMem; cpu; mem; nz; zones...] followed by the two amounts published by a
+   second Prepare on the same NodeResource; a degraded run is [1; -1; -1] *)
 Definition obs_len (obs : list Z) : nat :=
   match obs with
   | h :: _ :: _ :: _ :: _ :: nz :: _ => if h =? 0 then 6 + 2 * Z.to_nat nz else 3
   | _ => 3
   end.
+Definition full_len (obs : list Z) : nat :=
+  match obs with
+  | h :: _ => if h =? 0 then obs_len obs + 2 else obs_len obs
+  | _ => obs_len obs
+  end.
+Definition split_obs (obs : list Z) : (list Z * list Z) * (list Z * list Z) :=
+  let rest := skipn (full_len obs) obs in
+  ((firstn (obs_len obs) obs, skipn (obs_len obs) (firstn (full_len obs) obs)),
+   (firstn (obs_len rest) rest, skipn (obs_len rest) rest)).
 
-(* property decided on the IMPLEMENTATION's observable: bounds on both runs, then the
-   metamorphic clauses (5: consumption raised, 6: reclaim threshold lowered, 7: published amounts when a
-   consumption input or the third-party allocation is raised) between them *)
+(* property decided on the IMPLEMENTATION's observable: bounds on both runs (the published cpu amount
+   under a cpu-normalization ratio is judged by clause 8 instead), clause 8 (published amounts of the first
+   and of a repeated Prepare against the item amount amplified once), then the metamorphic clauses
+   (5: consumption raised, 6: reclaim threshold lowered, 7: published amounts when a consumption input or
+   the third-party allocation is raised; 7 only without a ratio) between them *)
 Definition prop_case (inp obs : list Z) : Z :=
-  let '((a, ta), (b, tb)) := decode2t inp in
-  let oa := firstn (obs_len obs) obs in
-  let ob := skipn (obs_len obs) obs in
-  let ca := batch_code false a oa in
-  let cb := batch_code false b ob in
+  let '((a, (ta, ra)), (b, (tb, rb))) := decode2t inp in
+  let '((oa, ea), (ob, eb)) := split_obs obs in
+  let ca := batch_code false a (mask_pub ra oa) in
+  let cb := batch_code false b (mask_pub rb ob) in
   if negb (ca =? 0) then ca
   else if negb (cb =? 0) then cb
+  else if negb (norm_code ra ta oa ea =? 0) then norm_code ra ta oa ea
+  else if negb (norm_code rb tb ob eb =? 0) then norm_code rb tb ob eb
   else if negb (antitone_code a b oa ob =? 0) then 5
   else if negb (reclaim_code a b oa ob =? 0) then 6
-  else if negb (pub_antitone_code a b ta tb oa ob =? 0) then 7
-  else if negb (batch_code true a oa =? 0) then batch_code true a oa
-  else batch_code true b ob.
+  else if match ra, rb with None, None => negb (pub_antitone_code a b ta tb oa ob =? 0) | _, _ => false end then 7
+  else if negb (batch_code true a (mask_pub ra oa) =? 0) then batch_code true a (mask_pub ra oa)
+  else batch_code true b (mask_pub rb ob).
 
 Definition some_hp_pod (b : binput) : bool :=
   existsb (fun p => p_active p && p_hp p) (b_pods b).
@@ -113,7 +136,8 @@ Definition request_sys_shape (b : binput) : bool :=
 Definition finding_sig (inp obs : list Z) : Z :=
   let '(a, b) := decode2 inp in
   if negb (request_sys_shape a || request_sys_shape b) then 0 else
-  let oa := firstn (obs_len obs) obs in
+  let '((_, (_, ra)), _) := decode2t inp in
+  let oa := mask_pub ra (firstn (obs_len obs) obs) in
   let c := prop_case inp obs in
   let failing := if negb (batch_code true a oa =? 0) then a else b in
   (* a known finding only when the implementation's WHOLE observable is the faithful model's *)
